@@ -39,25 +39,26 @@ type Violation struct {
 }
 
 type Path struct {
-	ex        *Explorer
-	s         *Solver
-	f         termFactory
-	model     *Model
-	prefix    []Decision
-	pos       int
-	decisions []Decision
-	pc        []*Term
-	vars      []*Term
-	varCount  map[string]int
-	known     []knownPred
-	reached   map[string]bool
-	notes     []string
-	nBranches int
-	nForks    int
-	concrete  bool // concrete replay mode: no solver, model fixed
-	in        *Interp
-	iv        *ivState
-	ivDecided int
+	ex         *Explorer
+	s          *Solver
+	f          termFactory
+	model      *Model
+	prefix     []Decision
+	pos        int
+	decisions  []Decision
+	pc         []*Term
+	vars       []*Term
+	varCount   map[string]int
+	known      []knownPred
+	reached    map[string]bool
+	notes      []string
+	nBranches  int
+	nForks     int
+	concrete   bool // concrete replay mode: no solver, model fixed
+	in         *Interp
+	iv         *ivState
+	ivDecided  int
+	panicStack []string
 }
 
 func newPath(ex *Explorer, s *Solver, item WorkItem) *Path {
@@ -397,7 +398,9 @@ func (p *Path) mkViolation(label string, m map[string]uint64) *Violation {
 		v.VarOrder = append(v.VarOrder, t.name)
 		v.Model[t.name] = m[t.name] & maskB(t.w)
 	}
-	if p.in != nil {
+	if p.panicStack != nil {
+		v.Stack = p.panicStack
+	} else if p.in != nil {
 		v.Stack = p.in.stack()
 	}
 	v.Notes = append(v.Notes, p.notes...)
